@@ -1,9 +1,11 @@
 package main
 
 import (
+	"bytes"
 	"context"
 	"errors"
 	"fmt"
+	"io"
 	"os"
 	"strconv"
 	"syscall"
@@ -13,6 +15,7 @@ import (
 	"bazil.org/fuse/fs"
 	"github.com/superfly/litefs"
 	lfuse "github.com/superfly/litefs/fuse"
+	"github.com/superfly/ltx"
 )
 
 // mountImpl routes the application-side operations of the engine runner (page, journal and WAL
@@ -222,6 +225,7 @@ func (mt *mountImpl) do(m *engineImpl, ctx context.Context, f []string) (obs str
 			return "bad-op", true
 		}
 		mt.used++
+		mt.jh = nil // SQLite creates the journal only when it has no journal file open
 		if _, err := os.Stat(m.db.JournalPath()); err == nil {
 			return "eexist", true // the kernel answers an exclusive create of an existing name itself
 		}
@@ -286,6 +290,7 @@ func (mt *mountImpl) do(m *engineImpl, ctx context.Context, f []string) (obs str
 			return "bad-op", true
 		}
 		mt.used++
+		mt.wh = nil
 		if _, err := os.Stat(m.db.WALPath()); err == nil {
 			return "eexist", true // the kernel answers an exclusive create of an existing name itself
 		}
@@ -488,4 +493,86 @@ func (mt *mountImpl) do(m *engineImpl, ctx context.Context, f []string) (obs str
 		}
 	}
 	return "", false
+}
+
+// crossCheck reads, through the mount's handlers, the database's -pos file (as `cat` does, in two
+// reads) and the database file (whole, in 4 KiB reads as the kernel issues them), and compares them
+// with the position the node reports and with the file on disk.  Empty string = they agree.
+func (mt *mountImpl) crossCheck(m *engineImpl, pos ltx.Pos) string {
+	ctx := context.Background()
+	n, err := mt.lookup(ctx, "db-pos")
+	if err != nil {
+		return "lookup of the -pos file: " + errnoStr(err)
+	}
+	pn, ok := n.(*lfuse.PosNode)
+	if !ok {
+		return fmt.Sprintf("the -pos file is a %T", n)
+	}
+	var text []byte
+	for off := int64(0); off < 64; {
+		var resp fuse.ReadResponse
+		err := pn.Read(ctx, &fuse.ReadRequest{Offset: off, Size: 20}, &resp)
+		if err == io.EOF || (err == nil && len(resp.Data) == 0) {
+			break
+		} else if err != nil {
+			return "read of the -pos file: " + errnoStr(err)
+		}
+		text = append(text, resp.Data...)
+		off += int64(len(resp.Data))
+	}
+	want := fmt.Sprintf("%s/%s\n", pos.TXID, pos.PostApplyChecksum)
+	if string(text) != want && m.db.Pos() == pos {
+		return fmt.Sprintf("the -pos file reads %q, the node's position is %q", text, want)
+	}
+	mt.used++
+	if m.c != nil {
+		m.c.Count("mount.read-pos")
+	}
+	// database file
+	disk, err := os.ReadFile(m.db.DatabasePath())
+	if err != nil {
+		return "" // no database file (dropped)
+	}
+	dn, err := mt.lookup(ctx, "db")
+	if err != nil {
+		return "lookup of the database: " + errnoStr(err)
+	}
+	dnode, ok := dn.(*lfuse.DatabaseNode)
+	if !ok {
+		return fmt.Sprintf("the database is a %T", dn)
+	}
+	var attr fuse.Attr
+	if err := dnode.Attr(ctx, &attr); err != nil {
+		return "attributes of the database: " + errnoStr(err)
+	}
+	if attr.Size != uint64(len(disk)) {
+		return fmt.Sprintf("the database's size through the mount is %d, the file has %d bytes", attr.Size, len(disk))
+	}
+	if len(disk) > 1<<22 {
+		return "" // large images: size only
+	}
+	h, err := dnode.Open(ctx, &fuse.OpenRequest{Flags: fuse.OpenReadOnly}, &fuse.OpenResponse{})
+	if err != nil {
+		return "open of the database: " + errnoStr(err)
+	}
+	dh := h.(*lfuse.DatabaseHandle)
+	defer func() { _ = dh.Release(ctx, &fuse.ReleaseRequest{}) }()
+	var got []byte
+	for off := int64(0); off < int64(len(disk)); off += 4096 {
+		resp := fuse.ReadResponse{Data: make([]byte, 0, 4096)}
+		if err := dh.Read(ctx, &fuse.ReadRequest{Offset: off, Size: 4096, LockOwner: 99}, &resp); err != nil {
+			return "read of the database: " + errnoStr(err)
+		}
+		got = append(got, resp.Data...)
+		if len(resp.Data) < 4096 {
+			break
+		}
+	}
+	if !bytes.Equal(got, disk) {
+		return fmt.Sprintf("the database read through the mount (%d bytes) differs from the file (%d bytes)", len(got), len(disk))
+	}
+	if m.c != nil {
+		m.c.Count("mount.read-db")
+	}
+	return ""
 }
